@@ -21,8 +21,10 @@ def gen_spec(r: apigen.Rng):
         f = {"name": ["common", "types", "library"][fi + (3 - nfiles)], "pkg": pkg + ("." + spec["sub"] if in_sub else ""), "messages": [], "enums": [], "services": []}
         if r.maybe(0.6):
             f["enums"].append({"name": f"Color{fi}", "values": [f"COLOR{fi}_UNSPECIFIED", f"RED{fi}", f"BLUE{fi}"]})
+        if r.maybe(0.04):        # legal but unusual: an enum value named by a Python keyword (findings/C01.json)
+            f["enums"].append({"name": f"Mode{fi}", "values": [f"MODE{fi}_UNSPECIFIED", r.pick(["None", "True", "class", "import"])]})
         for mi in range(r.randint(1, 3)):
-            m = {"name": f"Thing{msg_id}", "fields": [], "nested": r.maybe(0.3), "resource": r.maybe(0.4), "oneof": r.maybe(0.3),
+            m = {"name": (r.pick(["MutableSequence", "MutableMapping"]) if (r.maybe(0.03) and not any(x[1].startswith("Mutable") for x in all_msgs)) else f"Thing{msg_id}"), "fields": [], "nested": r.maybe(0.3), "resource": r.maybe(0.4), "oneof": r.maybe(0.3),
                  "collide": r.pick([None, None, "nested", "top", "proto"]) if fi > 0 else None}
             msg_id += 1
             used = set()
@@ -93,6 +95,26 @@ def stress_specs():
             files[2]["services"] = []
         out.append({"pkg": pkg, "files": files, "dep_pkg": True, "sub": None, "service_in_sub": False, "service_yaml": tr != "rest",
                     "ads": False, "opts": [f"transport={tr}"] + extra, "transport": tr.split("+")})
+    return out
+
+
+def finding_specs():
+    """the two open findings of findings/C01.json, reproduced on every run"""
+    def msg(name):
+        return {"name": name, "fields": [{"name": "name", "kind": "scalar", "scalar": "string", "key": "string", "target": None, "required": False},
+                                         {"name": "labels", "kind": "repeated", "scalar": "string", "key": "string", "target": None, "required": False}],
+                "nested": False, "resource": False, "oneof": False}
+    out = []
+    for variant in ("enum-keyword", "typing-name"):
+        pkg = "acme.lib.v1"
+        f = {"name": "library", "pkg": pkg, "messages": [msg("Alpha")], "enums": [], "services": []}
+        if variant == "enum-keyword":
+            f["enums"].append({"name": "Mode", "values": ["MODE_UNSPECIFIED", "None"]})
+        else:
+            f["messages"].append(msg("MutableSequence"))
+        f["services"] = [{"name": "Library", "methods": [{"name": "GetAlpha", "kind": "unary", "io": (pkg, "Alpha"), "http": True, "sig": True}]}]
+        out.append({"pkg": pkg, "files": [f], "dep_pkg": False, "sub": None, "service_in_sub": False, "service_yaml": False, "ads": False,
+                    "opts": ["transport=grpc", "autogen-snippets=false"], "transport": ["grpc"]})
     return out
 
 
@@ -232,7 +254,17 @@ def run_case(ctx, spec, label):
                     ctx.fail("json-invalid", f"{f.name}: {e}", payload)
         if bad:
             where = "samples" if all(b[0].startswith("samples/") for b in bad) else ("tests" if all(b[0].startswith("tests/") for b in bad) else "library")
-            ctx.fail(f"syntax-error:{where}", f"{len(bad)} emitted file(s) do not parse, e.g. {bad[0]}", payload)
+            key = f"syntax-error:{where}"
+            if where == "library":
+                import keyword as _kw, re as _re
+                texts = {b[0]: next(f.content for f in res.file if f.name == b[0]).splitlines()[(b[1] or 1) - 1].strip() for b in bad}
+                kws = {v for f in spec["files"] for e in f["enums"] for v in e["values"] if _kw.iskeyword(v)}
+                def about_kw_value(name, line):      # the declaration `None = 1` in a types module, or a use `<Enum>.None` elsewhere
+                    m = _re.fullmatch(r"(\w+) = -?\d+", line)
+                    return bool(m and m.group(1) in kws and "/types/" in name) or any(_re.search(r"\.%s\b" % k, line) for k in kws)
+                if kws and all(about_kw_value(b[0], texts[b[0]]) for b in bad):
+                    key = "syntax-error:enum-value-is-python-keyword"
+            ctx.fail(key, f"{len(bad)} emitted file(s) do not parse, e.g. {bad[0]}", payload)
             if where == "library":
                 return
         api, o = genrun.build_api(req)
@@ -254,7 +286,13 @@ def run_case(ctx, spec, label):
             genrun.cleanup(root)
         imp = out[0]
         if "child_error" in imp or imp.get("errors"):
-            ctx.fail("import-error", f"package {pkg} does not import: {str(imp.get('errors') or imp)[:400]}", payload)
+            key = "import-error"
+            mnames = {m["name"] for f in spec["files"] for m in f["messages"]}
+            etxt = str(imp.get("errors") or imp)
+            # (two symptoms of the one cause: the descriptor file is built before the class exists — built twice, or built without it)
+            if mnames & {"MutableSequence", "MutableMapping"} and ("duplicate file name" in etxt or ("AttributeError" in etxt and ".types." in etxt and "has no attribute" in etxt)):
+                key = "import-error:message-named-like-typing-import"
+            ctx.fail(key, f"package {pkg} does not import: {str(imp.get('errors') or imp)[:400]}", payload)
             return
         ex = api.all_library_settings[api.naming.proto_package].python_settings.experimental_features
         mo = ctx.driver.ask([{"op": "c01.registry", "transport": list(o.transport), "restAsync": bool(ex.rest_async_io_enabled)}])[0]
@@ -307,6 +345,9 @@ def run(ctx):
     ctx.assume("the alternative (ads) template set offers no asyncio client or transport: for it only the synchronous surface is checked")
     ctx.assume("Python's parser and importer are not modelled: `parses and imports` is decided by execution on every case")
     r = ctx.rng("general")
+    for k, spec in enumerate(finding_specs()):
+        run_case(ctx, spec, f"finding{k}")
+        ctx.case({"finding": k}, distinct_key=["finding", k])
     for k, spec in enumerate(stress_specs()):
         run_case(ctx, spec, f"stress{k}")
         ctx.case({"stress": k, "opts": spec["opts"]}, distinct_key=["stress", k])
